@@ -299,6 +299,173 @@ Proof.
   - apply map_opt_map. intros k Hkin. rewrite Forall_forall in IH. apply IH; [exact Hkin|]. by_forallb.
 Qed.
 
+(** ** imports *)
+Lemma units_ok_strs : forall u, units_ok E true u = true ->
+  no_ctrl (u_name u) = true /\ no_ctrl (u_id u) = true /\ no_ctrl (u_ref u) = true
+  /\ (forall i, u_src u = Some i -> isrc_ok true i = true).
+Proof.
+  intros u H. unfold units_ok in H. bsplit_all. repeat split; try now apply str_ok_true.
+  intros i Hi. rewrite Hi in *. bsplit_all. assumption.
+Qed.
+
+Lemma shell_ok_src : forall us s i, shell_ok E true us s = true -> c_src s = Some i -> isrc_ok true i = true.
+Proof. intros us s i H Hi. unfold shell_ok in H. rewrite Hi in H. bsplit_all. assumption. Qed.
+
+Lemma flat_c_unfold : forall p s ks, flat_c p (Comp s ks) = (p, Comp s ks) :: flat_cs p 0 ks.
+Proof.
+  intros. cbn [flat_c]. f_equal.
+  generalize 0. induction ks as [|k r IH]; intros j; [reflexivity|]. cbn [flat_cs]. rewrite <- IH. reflexivity.
+Qed.
+
+(** every component of the forest, at any depth, is ok when the top-level ones are *)
+Lemma flat_c_ok : forall us c p q d, comp_ok E true us c = true -> In (q, d) (flat_c p c) -> comp_ok E true us d = true.
+Proof.
+  intros us. induction c as [s ks IH] using comp_ind'. intros p q d H Hin.
+  rewrite flat_c_unfold in Hin. destruct Hin as [Heq|Hin]; [injection Heq as _ <-; exact H|].
+  rewrite comp_ok_unfold in H. apply andb_true_iff in H. destruct H as [_ Hk].
+  revert Hin. generalize 0. induction ks as [|k r IHr]; intros j Hin; [contradiction|].
+  cbn [flat_cs] in Hin. simpl in Hk. apply andb_true_iff in Hk. destruct Hk as [Hk1 Hk2].
+  inversion IH as [|? ? Pk Pr]; subst. apply in_app_or in Hin. destruct Hin as [Hin|Hin].
+  - eapply Pk; eassumption.
+  - eapply IHr; eassumption.
+Qed.
+
+Lemma all_comps_ok : forall us cs p j q d, forallb (comp_ok E true us) cs = true -> In (q, d) (flat_cs p j cs) -> comp_ok E true us d = true.
+Proof.
+  intros us. induction cs as [|c cs IH]; intros p j q d H Hin; [contradiction|].
+  simpl in H. apply andb_true_iff in H. destruct H as [Hc Hcs]. cbn [flat_cs] in Hin.
+  apply in_app_or in Hin. destruct Hin as [Hin|Hin]; [eapply flat_c_ok; eassumption | eapply IH; eassumption].
+Qed.
+
+Lemma collate_subset : forall l acc i, In i (collate l acc) -> In i l \/ In i acc.
+Proof.
+  induction l as [|x l IH]; intros acc i H; simpl in H; [now right|].
+  destruct (existsb _ acc).
+  - destruct (IH _ _ H); [left; now right | now right].
+  - destruct (IH _ _ H) as [Hl|Ha]; [left; now right|]. apply in_app_or in Ha. destruct Ha as [Ha|[<-|[]]]; [now right | left; now left].
+Qed.
+
+Lemma read_print_imports : forall m,
+  forallb (units_ok E true) (m_units m) = true -> forallb (comp_ok E true (m_units m)) (m_comps m) = true ->
+  map_opt xml_read (print_imports escape_attr m) = Some (print_imports ident m).
+Proof.
+  intros m Hu Hc. unfold print_imports. apply map_opt_map. intros i Hi.
+  assert (Hiok : isrc_ok true i = true).
+  { unfold the_sources in Hi. apply collate_subset in Hi. destruct Hi as [Hi|[]].
+    apply in_app_or in Hi. destruct Hi as [Hi|Hi]; apply in_flat_map in Hi; destruct Hi as (x & Hx & Hxi).
+    - unfold imported_components in Hx. apply filter_In in Hx. destruct Hx as [Hx _].
+      apply in_map_iff in Hx. destruct Hx as ((q & d) & <- & Hqd). cbn [snd] in Hxi.
+      pose proof (all_comps_ok _ _ _ _ _ _ Hc Hqd) as Hd. destruct d as [s ks]. rewrite comp_ok_unfold in Hd.
+      apply andb_true_iff in Hd. destruct Hd as [Hs _]. cbn [shell] in Hxi.
+      destruct (c_src s) as [i'|] eqn:Es; [|contradiction]. destruct Hxi as [<-|[]]. eapply shell_ok_src; eassumption.
+    - unfold imported_units in Hx. apply filter_In in Hx. destruct Hx as [Hx _].
+      rewrite forallb_forall in Hu. destruct (units_ok_strs x (Hu x Hx)) as (_ & _ & _ & Hsrc).
+      destruct (u_src x) as [i'|]; [|contradiction]. destruct Hxi as [<-|[]]. now apply Hsrc. }
+  unfold isrc_ok in Hiok. bsplit_all.
+  unfold print_import. apply read_el.
+  - cbn [map_opt]. unfold read_attr at 1. cbn [a_ns a_name a_val]. rewrite decode_escape by now apply str_ok_true.
+    cbn [option_map]. rewrite read_opt_attr by now apply str_ok_true. reflexivity.
+  - apply map_opt_app; apply map_opt_map.
+    + intros u Hin. apply filter_In in Hin. destruct Hin as [Hin _]. unfold imported_units in Hin. apply filter_In in Hin. destruct Hin as [Hin _].
+      rewrite forallb_forall in Hu. destruct (units_ok_strs u (Hu u Hin)) as (Hn & Hid & Hr & _).
+      apply read_el; [|reflexivity]. apply map_opt_app; [|now apply read_opt_attr].
+      cbn [map_opt]. rewrite !read_at by assumption. reflexivity.
+    + intros c Hin. apply filter_In in Hin. destruct Hin as [Hin _]. unfold imported_components in Hin. apply filter_In in Hin. destruct Hin as [Hin _].
+      apply in_map_iff in Hin. destruct Hin as ((q & d) & <- & Hqd). cbn [snd].
+      pose proof (all_comps_ok _ _ _ _ _ _ Hc Hqd) as Hd. destruct d as [s ks]. rewrite comp_ok_unfold in Hd.
+      apply andb_true_iff in Hd. destruct Hd as [Hs _]. destruct (shell_ok_names _ _ Hs) as (Hn & Hid & _ & Hr).
+      apply read_el; [|reflexivity]. apply map_opt_app; [|now apply read_opt_attr].
+      cbn [map_opt shell cname]. rewrite !read_at by assumption. reflexivity.
+Qed.
+
+(** ** connections *)
+Lemma comp_at_ok : forall us p cs c, forallb (comp_ok E true us) cs = true -> comp_at cs p = Some c -> comp_ok E true us c = true.
+Proof.
+  intros us. induction p as [|i p IH]; intros cs c H Hc; [discriminate|].
+  cbn [comp_at] in Hc. destruct (nth_error cs i) as [d|] eqn:En; [|discriminate].
+  assert (Hd : comp_ok E true us d = true). { rewrite forallb_forall in H. apply H. eapply nth_error_In; eassumption. }
+  destruct p as [|j p']; [injection Hc as <-; exact Hd|].
+  destruct d as [s ks]. rewrite comp_ok_unfold in Hd. apply andb_true_iff in Hd. destruct Hd as [_ Hk].
+  eapply IH; eassumption.
+Qed.
+
+Lemma comp_name_at_ok : forall us cs p, forallb (comp_ok E true us) cs = true -> no_ctrl (comp_name_at cs p) = true.
+Proof.
+  intros us cs p H. unfold comp_name_at. destruct (comp_at cs p) as [c|] eqn:Ec; [|reflexivity].
+  pose proof (comp_at_ok _ _ _ _ H Ec) as Hc. destruct c as [s ks]. rewrite comp_ok_unfold in Hc.
+  apply andb_true_iff in Hc. destruct Hc as [Hs _]. now destruct (shell_ok_names _ _ Hs).
+Qed.
+
+Lemma shell_ok_var_names : forall us s v, shell_ok E true us s = true -> In v (c_vars s) -> no_ctrl (v_name v) = true.
+Proof.
+  intros us s v H Hv. unfold shell_ok in H. bsplit_all. destruct (c_src s); bsplit_all.
+  - match goal with Hf : forallb _ (c_vars s) = true |- _ => rewrite forallb_forall in Hf; specialize (Hf v Hv) end.
+    bsplit_all. now apply str_ok_true.
+  - match goal with Hf : forallb (variable_ok true us) (c_vars s) = true |- _ => rewrite forallb_forall in Hf; specialize (Hf v Hv); unfold variable_ok in Hf end.
+    bsplit_all. now apply str_ok_true.
+Qed.
+
+Lemma var_name_at_ok : forall us cs v, forallb (comp_ok E true us) cs = true -> no_ctrl (var_name_at cs v) = true.
+Proof.
+  intros us cs v H. unfold var_name_at, var_at. destruct (comp_at cs (fst v)) as [c|] eqn:Ec; [|reflexivity].
+  destruct (nth_error (c_vars (shell c)) (snd v)) as [x|] eqn:En; [|reflexivity].
+  pose proof (comp_at_ok _ _ _ _ H Ec) as Hc. destruct c as [s ks]. rewrite comp_ok_unfold in Hc.
+  apply andb_true_iff in Hc. destruct Hc as [Hs _]. eapply shell_ok_var_names; [eassumption|]. eapply nth_error_In; eassumption.
+Qed.
+
+(** ids carried by the map entries come from the edges *)
+Definition entry_ids_ok (e : mapentry) : Prop := no_ctrl (me_mid e) = true /\ no_ctrl (me_cid e) = true.
+
+Lemma fold_left_Forall : forall {A B} (P : A -> Prop) (f : list A -> B -> list A) (l : list B) (acc : list A),
+  (forall acc x, In x l -> Forall P acc -> Forall P (f acc x)) -> Forall P acc -> Forall P (fold_left f l acc).
+Proof.
+  induction l as [|x l IH]; intros acc Hf Ha; [exact Ha|]. simpl. apply IH.
+  - intros acc' y Hy. apply Hf. now right.
+  - apply Hf; [now left | exact Ha].
+Qed.
+
+Lemma build_maps_ids_ok : forall m,
+  Forall (fun e => no_ctrl (e_mid e) = true /\ no_ctrl (e_cid e) = true) (m_eqv m) -> Forall entry_ids_ok (build_maps m).
+Proof.
+  intros m H. unfold build_maps. apply fold_left_Forall; [|constructor].
+  intros acc pc _ Hacc. unfold build_for_comp. apply fold_left_Forall; [|exact Hacc].
+  intros acc2 vi _ Hacc2. unfold build_for_var. apply fold_left_Forall; [|exact Hacc2].
+  intros acc3 [[w mid] cid] Hin Hacc3. destruct (existsb _ acc3); [exact Hacc3|].
+  apply Forall_app. split; [exact Hacc3|]. constructor; [|constructor].
+  unfold eq_partners in Hin. apply in_flat_map in Hin. destruct Hin as (e & He & Hin).
+  rewrite Forall_forall in H. specialize (H e He).
+  destruct (vpath_eqb (e_a e) (fst pc, vi)); [|destruct (vpath_eqb (e_b e) (fst pc, vi))];
+    try (destruct Hin as [Heq|[]]; injection Heq as _ <- <-; exact H); contradiction.
+Qed.
+
+Lemma last_in_or_default : forall {A} (l : list A) d, l = [] \/ In (last l d) l.
+Proof.
+  induction l as [|x l IH]; intros d; [now left|]. right. destruct l as [|y l']; [now left|].
+  destruct (IH d) as [Hn|Hin]; [discriminate|]. right. exact Hin.
+Qed.
+
+Lemma read_print_connections : forall us cs l done, forallb (comp_ok E true us) cs = true -> Forall entry_ids_ok l ->
+  map_opt xml_read (print_connections escape_attr cs l done) = Some (print_connections ident cs l done).
+Proof.
+  intros us cs l done Hc. revert done. induction l as [|e r IH]; intros done Hl; [reflexivity|].
+  inversion Hl as [|? ? He Hr]; subst. cbn [print_connections].
+  destruct (existsb (ppair_eqb (me_pair e)) done); [now apply IH|].
+  cbn [map_opt]. rewrite (IH _ Hr).
+  set (grp := e :: filter (fun e' => ppair_eqb (me_pair e') (me_pair e)) r).
+  assert (Hgrp : Forall entry_ids_ok grp).
+  { constructor; [exact He|]. rewrite Forall_forall in *. intros x Hx. apply filter_In in Hx. now apply Hr. }
+  erewrite read_el; [reflexivity | |].
+  - apply map_opt_app.
+    + cbn [map_opt]. rewrite !read_at by (eapply comp_name_at_ok; eassumption). reflexivity.
+    + apply read_opt_attr. destruct (last_in_or_default (map me_cid grp) "") as [Hn|Hin].
+      * rewrite Hn. reflexivity.
+      * apply in_map_iff in Hin. destruct Hin as (x & Hx & Hxin). rewrite <- Hx. rewrite Forall_forall in Hgrp. now apply Hgrp.
+  - apply map_opt_map. intros x Hx. unfold print_map_variables. apply read_el; [|reflexivity].
+    apply map_opt_app.
+    + cbn [map_opt]. rewrite !read_at by (eapply var_name_at_ok; eassumption). reflexivity.
+    + apply read_opt_attr. rewrite Forall_forall in Hgrp. now apply Hgrp.
+Qed.
+
 (** the whole document, given that the import blocks and the connections read back (proved below for every
     printable model; trivially true for models without imports / connections) *)
 Lemma read_print_gen : forall m,
@@ -326,6 +493,18 @@ Proof.
       try reflexivity; try (simpl in Henc; discriminate).
       * simpl in Henc. destruct (xml_read x); [|discriminate]. destruct (map_opt xml_read xs); discriminate.
       * apply map_opt_single. apply read_el; [apply read_opt_attr; now apply str_ok_true | exact Henc].
+Qed.
+
+(** the repaired printer never returns an empty document on a printable model: the text reads as [print_tree] *)
+Theorem print_model_printable : forall m, printable E true m -> print_model E true m = Some (print_tree E m).
+Proof.
+  intros m H. unfold print_model. apply read_print_gen; [exact H | |]; unfold printable, printableb in H; bsplit_all.
+  - apply read_print_imports; assumption.
+  - eapply read_print_connections; [eassumption|]. apply build_maps_ids_ok.
+    match goal with He : eqv_ok true m = true |- _ => unfold eqv_ok in He end. bsplit_all.
+    rewrite Forall_forall. intros e He.
+    match goal with Hf : forallb _ (m_eqv m) = true |- _ => rewrite forallb_forall in Hf; specialize (Hf e He) end.
+    bsplit_all. split; now apply str_ok_true.
 Qed.
 
 End Read.
